@@ -144,7 +144,18 @@ func lookAheadIndexGuarded(c *Ctx, rule string, rels ...string) {
 					visitStmt(t.Init)
 					visitExpr(t.Cond)
 					visitStmt(t.Post)
+					// (the loop's condition holds where the body starts: `for i := 0; i+1 < len(s); i++` bounds s[i+1];
+					// a plain `i < len(s)` mentions len(s) too — it is the look-ahead distance that decides, so only a
+					// condition that itself has an addition or subtraction next to the bound counts)
+					pushed := false
+					if t.Cond != nil && strings.ContainsAny(types.ExprString(t.Cond), "+-") {
+						conds = append(conds, t.Cond)
+						pushed = true
+					}
 					visitStmt(t.Body)
+					if pushed {
+						conds = conds[:len(conds)-1]
+					}
 				case *ast.RangeStmt:
 					visitExpr(t.X)
 					visitStmt(t.Body)
@@ -160,8 +171,11 @@ func lookAheadIndexGuarded(c *Ctx, rule string, rels ...string) {
 							conds = append(conds, cl.List...)
 						}
 						visitBlock(cl.Body)
-						if t.Tag == nil {
-							conds = conds[:len(conds)-len(cl.List)]
+						// (a later clause is evaluated only where the earlier ones did not hold: their tests stay known)
+					}
+					if t.Tag == nil {
+						for _, cc := range t.Body.List {
+							conds = conds[:len(conds)-len(cc.(*ast.CaseClause).List)]
 						}
 					}
 				case *ast.TypeSwitchStmt:
